@@ -15,7 +15,8 @@ RULE = ('Hypothesis: schema from the shape grammar (simple / reflexive / associa
         'attributes, then batch_relate() + formalize() of every association, then some links removed again) x route (serialize_database; serialize_schema/instances/'
         'unique_identifiers as three input() calls in a drawn order; persist_database; persist_schema/instances/'
         'unique_identifiers into three files loaded in a drawn order; instances-only text without CREATE TABLE) x '
-        'some values set to None. Oracle: the reloaded metamodel equals a description computed by the harness from the '
+        'some values set to None; a quarter of the models were saved once and then edited (a plain attribute replaced by a new one '
+        'of another type at the same position) before the save that is checked. Oracle: the reloaded metamodel equals a description computed by the harness from the '
         'generated case (classes, typed attributes, identifiers, associations with keys/multiplicity/conditionality/'
         'phrases, instance sequences with values, link sets navigated in both directions); serialize() dispatch equals '
         'the dedicated functions; second and third generation texts are identical. non-trivial = >= 2 classes, >= 1 '
@@ -70,8 +71,12 @@ def cases(draw, cr=False, phrases=None):
     # then batch_relate() + formalize() of every association, then some of the links are removed again
     late = draw(st.integers(0, 2)) == 0
     drop = sorted(draw(st.sets(st.integers(0, max(len(pop['links']) - 1, 0)), max_size=3))) if late and pop['links'] else []
+    edits = []
+    if draw(st.integers(0, 3)) == 0:
+        edits = [[draw(st.integers(0, 9)), draw(st.integers(0, 9)), draw(st.sampled_from(['INTEGER', 'STRING', 'BOOLEAN', 'REAL', 'UNIQUE_ID']))]
+                 for _ in range(draw(st.integers(1, 2)))]
     return {'schema': schema_js, 'pop': pop, 'route': draw(st.sampled_from(ROUTES)),
-            'order': draw(st.permutations([0, 1, 2])), 'unset': unset, 'late': late, 'drop': drop}
+            'order': draw(st.permutations([0, 1, 2])), 'unset': unset, 'late': late, 'drop': drop, 'edits': edits}
 
 
 def dropped_links(case):
@@ -279,9 +284,46 @@ def load_text(parts):
     return l.build_metamodel(xtuml.IntegerGenerator())
 
 
+def edited(case):
+    """-> (the case as it reads after its schema edits, [(class, replaced attribute, position, new name, new type, value)])
+    An edit replaces one plain (not identifying, not referential) attribute by a new one of a drawn type at the same
+    position: the number of columns stays what it was."""
+    import copy
+    c = copy.deepcopy(case)
+    sc = Schema(case['schema'])
+    applied = []
+    for k, (ci, ai, ty) in enumerate(case.get('edits') or []):
+        cls = c['schema']['classes'][ci % len(c['schema']['classes'])]
+        cn = cls['name']
+        ident = set(sc.referentials(cn))
+        for u in sc.uniques:
+            if u['cls'] == cn:
+                ident |= set(u['attrs'])
+        for a in sc.assocs:
+            if a['tgt'] == cn:
+                ident |= set(a['tgt_keys'])
+        cands = [i for i, (n, t) in enumerate(cls['attrs']) if n not in ident and n not in ('self', 'kind') and not n.startswith('Zq_e')]
+        if not cands:
+            continue
+        pos = cands[ai % len(cands)]
+        old = cls['attrs'][pos][0]
+        new = 'Zq_e%d' % k
+        val = {'INTEGER': 7 + k, 'STRING': "edited %d's" % k, 'BOOLEAN': True, 'REAL': 2.5 + k, 'UNIQUE_ID': 900000 + k}[ty]
+        cls['attrs'][pos] = [new, ty]
+        for cn2, row in c['pop']['rows']:
+            if cn2 == cn:
+                row.pop(old, None)
+                row[new] = val
+        c['unset'] = [u for u in c['unset'] if not (u[0] == cn and u[2] == old)]
+        applied.append((cn, old, pos, new, ty, val))
+    return c, applied
+
+
 def run_case(case, res=None):
+    orig = case
+
     def fail(bucket, detail):
-        raise Violation(bucket, case, detail)
+        raise Violation(bucket, orig, detail)
 
     if case['pop'].get('unresolvable'):
         if res is not None:
@@ -291,9 +333,25 @@ def run_case(case, res=None):
         m0, insts = build_m0(case)
     except Exception as e:
         fail('harness-build-m0:' + exc_bucket(e), repr(e))
+    n_edits = 0
+    if case.get('edits'):
+        # the model was saved once, then some of its classes were edited: what is written now is the model as it is now
+        case, applied = edited(case)
+        n_edits = len(applied)
+        if applied:
+            try:
+                xtuml.serialize_database(m0)
+                for cn, old, pos, new, ty, val in applied:
+                    mc = m0.find_metaclass(cn)
+                    mc.delete_attribute(old)
+                    mc.insert_attribute(pos, new, ty)
+                    for inst in m0.select_many(cn):
+                        setattr(inst, new, val)
+            except Exception as e:
+                fail('harness-edit-m0:' + exc_bucket(e), repr(e))
     route = case['route']
     tmp = build.tmpdir()
-    tag = sha(case)[:10]
+    tag = sha(orig)[:10]
     files = []
     try:
         try:
@@ -386,11 +444,13 @@ def run_case(case, res=None):
             cl.append('hard-value')
         if case['unset']:
             cl.append('has-unset')
+        if n_edits:
+            cl.append('saved-then-edited')
         if case.get('late'):
             cl.append('built-instances-first')
             if dropped_links(case):
                 cl.append('links-removed-again')
-        res.case(case, nt, sample=case if nt and len(repr(case)) < 1900 else None, classes=sorted(set(cl)))
+        res.case(orig, nt, sample=orig if nt and len(repr(orig)) < 1900 else None, classes=sorted(set(cl)))
 
 
 def default_of_value(w):
